@@ -199,7 +199,7 @@ def checks (pre : Bool) (s : Sizes) (len : Nat) (junk : Bool) : Outcome :=
     else
       let bcec : Nat × Nat := if s.bc < ec1 then (s.bc.toNat, s.ec.toNat) else (1, 0)
       if s.nw = 0 ∨ s.nh = 0 ∨ s.nd = 0 ∨ s.ni = 0 then .err (.incompleteSubFiles s) junk
-      else if 255 < s.ne then .err (.tooManyExtensibleCharacters s.ne) junk
+      else if 256 < s.ne then .err (.tooManyExtensibleCharacters s.ne) junk
       else
         if pre then
           -- `s.lf != s.valid_lf()` with `valid_lf` in `i16`
@@ -290,7 +290,7 @@ structure Consistent (s : Sizes) : Prop where
   nl : 0 ≤ s.nl
   nk : 0 ≤ s.nk
   ne : 0 ≤ s.ne
-  ne' : s.ne ≤ 255
+  ne' : s.ne ≤ 256
   np : 0 ≤ s.np
   lf : s.lf = 6 + s.lh + (s.ec - s.bc + 1) + s.nw + s.nh + s.nd + s.ni + s.nl + s.nk + s.ne + s.np
   fits : s.lf ≤ 32767
